@@ -189,6 +189,8 @@ def run_property(pid, tier, repo):
             'configs': [r.config for r in reports],
             'configs_skipped': skipped,
             'rule_instances': counts,
+            'rules_glossary': {r: t for r, t in getattr(props, 'RULE_GLOSSARY', {}).items()
+                               if any(k.split('@')[0] == r or k.split('@')[0].startswith(r + '.') for k in counts)},
             'controls_hit': sorted(set().union(*[r.controls_hit for r in reports])) if reports else [],
             'known_findings': [v.key for v, _ in known_hits],
             'notes': notes[:20],
